@@ -12,7 +12,8 @@ ASSUME = [
     "holder is gone, no stream still references it and its close command (if any) was acknowledged",
     "the status snapshot is taken at a consistent moment (no stream reported on a circuit that is not reported)",
     "the fake Tor (SimTor) answers every command by command; GETINFO ip-to-country lookups issued on BUILT are answered 551; "
-    "CLOSECIRCUIT / CLOSESTREAM are answered only at an explicit Ack step so that both orders of acknowledgement and event occur",
+    "C07: a third of the random histories also contain waits, close requests and their (possibly refused) acknowledgements, as C08's do",
+    "CLOSECIRCUIT / CLOSESTREAM are answered only at an explicit Ack step (or refused with a 552 at a Nack step) so that both orders of acknowledgement and event occur",
     "a stream's target / source are compared once Tor has reported them in a NEW / NEWRESOLVE / SUCCEEDED line (what the view records)",
     "streams may be remapped repeatedly (cache hit on NEW, the exit's answer after SENTCONNECT): the latest address is the truth; a stream "
     "reported FAILED may be reported CLOSED afterwards (for the view: an unknown id whose only event is terminal)",
@@ -54,7 +55,8 @@ def rand_script(rng, n, user):
                 listeners.add(l)
                 script.append(dict(a="AddListener", l=l))
             elif k < 0.4 and pend:
-                script.append(dict(a="Ack"))
+                # Tor answers the oldest close request; now and then it refuses it
+                script.append(dict(a="Nack" if (pend[0][0] != "B" and rng.random() < 0.3) else "Ack"))
                 done = pend.pop(0)
                 if done[0] == "B":
                     if done[1] not in known_c or tc.get(done[1], {}).get("st") == "NEWBORN":
@@ -90,8 +92,8 @@ def rand_script(rng, n, user):
                         continue
                     cid = rng.choice(sorted(known_c))
                     if kind == "CloseC":
-                        if failed_c.get(cid):
-                            continue
+                        if failed_c.get(cid) or ("B", cid) in pend:
+                            continue        # (while the build request is unanswered the user still holds the previous object)
                         script.append(dict(a="CloseC", x=x, id=cid))
                         used.add(x)
                         if cid in tc and cid not in closing_c:
@@ -242,7 +244,7 @@ def run(pid, tier, seed):
     for i in range(200 if tier == "quick" else 2500):
         closing_c, closing_s, failed_c, taddr, zombie = set(), set(), {}, {}, {}
         scripts.append(("random", rand_script(rng, rng.choice([30, 80, 200]) if tier == "quick" else rng.choice([50, 200, 600]),
-                                              user=(True if pid == "C08" else "listen" if i % 2 else False))))
+                                              user=(True if (pid == "C08" or i % 3 == 2) else "listen" if i % 2 else False))))
     traces, seen = [], set()
     for src, s in scripts:
         t = tsm.replay(s, (1, 2, 3), (1, 2, 3))
